@@ -34,7 +34,7 @@ def tag_applies(tags, prop, kind):
     """tags: list like ['C04:body', 'C12:post', 'C13']; kind in body|post"""
     for t in tags:
         name, _, k = t.partition(':')
-        if name == prop and (k == '' or k == kind):
+        if name == prop and (k == '' or k == kind or (kind == 'ghost' and k == 'post')):
             return True
     return False
 
@@ -44,7 +44,11 @@ def fn_has_prop(f, prop):
 
 
 def failure_kind(msg):
-    return 'post' if 'postcondition not satisfied' in msg else 'body'
+    if 'postcondition not satisfied' in msg:
+        return 'post'
+    if 'assertion' in msg:
+        return 'ghost'   # failed proof step (spliced ghost assertion): counts for :post and :body tags alike
+    return 'body'
 
 
 def span_text(unit_text_lines, line):
@@ -153,6 +157,7 @@ def main(argv):
     bounded = []
     canary_total = 0
     kani_rows = []
+    pending = []
     try:
         # ---------------- Engine A ----------------
         results = {}
@@ -226,45 +231,76 @@ def main(argv):
                 if k:
                     known_hits.append((k, fl))
                 else:
-                    violations.append({'engine': 'verus', 'unit': un, 'fn': f.qual, 'source': f.source, 'label': lab,
-                                       'message': fl['message'], 'rendered': fl['rendered'], 'kind': failure_kind(fl['message'])})
+                    pending.append({'engine': 'verus', 'unit': un, 'fn': f.qual, 'source': f.source, 'label': lab,
+                                    'message': fl['message'], 'rendered': fl['rendered'], 'kind': failure_kind(fl['message']),
+                                    'ghost_lost': list(f.ghost_lost), 'mirrors': P.mirrors_for(un, f.qual)})
             for it in u.items:
                 extraction.append(it)
         # ---------------- Engine B ----------------
-        kh = cfg.get('kani', {}).get(tier, cfg.get('kani', {}).get('quick', [])) if cfg.get('kani') else []
-        if tier == 'thorough' and cfg.get('kani'):
-            kh = cfg['kani'].get('thorough', cfg['kani'].get('quick', []))
-        if kh and not undecided:
+        kh = []
+        if cfg.get('kani'):
+            kh = list(cfg['kani'].get(tier) or cfg['kani'].get('quick', []))
+        mirror_needed = sorted(set(m for pv in pending for m in pv['mirrors']))
+        kres_by = {}
+        if (kh and not undecided) or mirror_needed:
+            want = sorted(set((kh if not undecided else []) + mirror_needed))
             try:
-                kres = kx.run_harnesses(kh, tier)
+                for h in kx.run_harnesses(want, tier):
+                    kres_by[h['name']] = h
             except kx.KaniLimit as e:
                 undecided.append('kani: %s' % e)
-                kres = []
-            for h in kres:
-                checker_cmds.append(h['cmd'])
-                row = {'harness': h['name'], 'status': h['status'], 'time_s': h['time_s'], 'mode': h['mode'], 'bound': h.get('bound'), 'checks': h.get('checks')}
-                kani_rows.append(row)
+        # (1) arbitration of failed Verus obligations by their Kani mirrors
+        for pv in pending:
+            ms = [kres_by[m] for m in pv['mirrors'] if m in kres_by]
+            failed = [m for m in ms if m['status'] == 'FAILED']
+            if failed:
+                m0 = failed[0]
+                pv['harness'] = m0['name']
+                pv['witness'] = m0.get('witness')
+                pv['message'] += ' || Kani mirror %s FAILED: %s' % (m0['name'], '; '.join(m0.get('failed', []))[:300])
+                violations.append(pv)
+            elif ms and all(m['status'] == 'SUCCESSFUL' for m in ms):
+                undecided.append('proof limit: Verus failed `%s` in %s but its Kani mirror(s) %s hold -> not reported as a violation'
+                                 % (pv['label'][:120], pv['fn'], [m['name'] for m in ms]))
+            elif ms:
+                undecided.append('Verus failed `%s` in %s and its Kani mirror(s) were inconclusive: %s'
+                                 % (pv['label'][:120], pv['fn'], [(m['name'], m['status']) for m in ms]))
+            elif pv['ghost_lost']:
+                undecided.append('Verus failed `%s` in %s after proof-hint anchors were lost (%s); no Kani mirror -> undecided'
+                                 % (pv['label'][:120], pv['fn'], pv['ghost_lost']))
+            else:
+                violations.append(pv)
+        # (2) the property's own harnesses
+        for hn in (kh if not undecided else []):
+            h = kres_by.get(hn)
+            if h is None:
+                undecided.append('kani harness %s produced no result' % hn)
+                continue
+            checker_cmds.append(h['cmd'])
+            row = {'harness': h['name'], 'status': h['status'], 'time_s': h['time_s'], 'mode': h['mode'], 'bound': h.get('bound'), 'checks': h.get('checks')}
+            kani_rows.append(row)
+            if h['mode'] == 'complete':
+                obligations += 1
+            if h['status'] == 'SUCCESSFUL':
                 if h['mode'] == 'complete':
-                    obligations += 1
-                if h['status'] == 'SUCCESSFUL':
-                    if h['mode'] == 'complete':
-                        discharged += 1
-                    else:
-                        bounded.append('%s: bounded (%s) — not counted as proved' % (h['name'], h.get('bound')))
-                elif h['status'] == 'FAILED':
-                    kk = None
-                    for k in known:
-                        if k.get('status') == 'open' and k['property'] == prop and k.get('engine') == 'kani' and k.get('harness') == h['name'] \
-                                and all(any(kf in fc for kf in k.get('failed_checks', [])) for fc in h.get('failed', [])):
-                            kk = k
-                    if kk:
-                        known_hits.append((kk, {'message': 'kani harness %s' % h['name']}))
-                    else:
-                        violations.append({'engine': 'kani', 'unit': h.get('file'), 'fn': h['name'], 'label': 'kani:' + h['name'],
-                                           'message': '; '.join(h.get('failed', []))[:600], 'rendered': h.get('log_tail', ''), 'kind': 'kani',
-                                           'witness': h.get('witness')})
+                    discharged += 1
                 else:
-                    undecided.append('kani harness %s: %s' % (h['name'], h['status']))
+                    bounded.append('%s: bounded (%s) - not counted as proved' % (h['name'], h.get('bound')))
+            elif h['status'] == 'FAILED':
+                kk = None
+                for k in known:
+                    if k.get('status') == 'open' and k['property'] == prop and k.get('engine') == 'kani' and k.get('harness') == h['name'] \
+                            and all(any(kf in fc for kf in k.get('failed_checks', [])) for fc in h.get('failed', [])):
+                        kk = k
+                already = any(v.get('harness') == h['name'] for v in violations)
+                if kk:
+                    known_hits.append((kk, {'message': 'kani harness %s' % h['name']}))
+                elif not already:
+                    violations.append({'engine': 'kani', 'unit': h.get('file'), 'fn': h['name'], 'label': 'kani:' + h['name'], 'harness': h['name'],
+                                       'message': '; '.join(h.get('failed', []))[:600], 'rendered': h.get('log_tail', ''), 'kind': 'kani',
+                                       'witness': h.get('witness')})
+            else:
+                undecided.append('kani harness %s: %s' % (h['name'], h['status']))
     except LostAnchor as e:
         undecided.append('lost anchor: %s' % e)
     except vx.ToolLimit as e:
